@@ -78,14 +78,14 @@ CHECKS = [
          technique='TLA+ Train.tla (Counter.most_common as stable sort, count/total, Markov pseudo-count N*(1/coverage-1) in scaled integers, coverage 0 / 1 cases, e-mail / website structures only in the raw list) model-checked by TLC for all small tallies x coverages; every saved list of real trainings (all terminal, mask, structure, raw, prince, provider and host lists) is compared by TLC with the tallies captured from the trainer memory (TrTrain list / grammar), and two trainings of the same input are compared file by file (TrTrain same)',
          text='Each list: every tallied item exactly once, probability = count/total, most to least probable, sums to the total; structure list coverage clauses; determinism.',
          note='p == count/total is checked in binary64 in Python (structure list: 1e-12 against the exact rational); counts passed to TLC as integers (scaled by the coverage numerator).'),
-    dict(pid='C03', cat='exploration', design='5/C03',
-         technique='real trainings of generated lists (words, three-word multi-words with per-word capitalisation, digits, years, symbols, walks, context strings, spaces, Cyrillic / Greek / Latin-1 letters, non-BMP symbols, duplicates; coverage, n-gram size, alphabet size and encoding varied) followed by the real guesser with --skip_brute run to exhaustion; TLC checks that every supported training password (segmentation recorded with the real detectors, no e-mail / website segment) is among the emitted guesses (TrTrain lang); probability sum compared in Python',
-         text='End-to-end composition Segment o Train o Loader o PTQueue o Expand on real inputs; the parts are model-checked separately (C05, C06, C14, C02, C04).',
-         note='Exploration-grade: inputs are sampled. Domain: letters with one-to-one case mapping (as stated). Coverage 0 is outside C03 (by C06 the grammar then holds only the Markov structure).'),
-    dict(pid='C13', cat='exploration', design='5/C13',
-         technique='real trainings, the real PCFGPasswordScorer and the real guesser language table (every non-Markov pre-terminal expanded); for every candidate string (training passwords, guesser output, one-edit perturbations, unrelated strings, e-mail / website strings) TLC checks on ranks (floats clustered within 1e-9) that a non-zero score equals the probability of a pre-terminal that emits exactly this string, that e-mail / website strings are classified and scored 0, and that rescoring in another order gives the same result (TrScore)',
-         text='Cross-implementation promise between scorer and guesser checked on real rulesets over thousands of candidates per run.',
-         note='Exploration-grade. Open finding C13-F15 (letters with non-invertible case mapping).'),
+    dict(pid='C03', cat=MC, design='5/C03',
+         technique='TLA+ Compose.tla (trainer -> guesser -> scorer on one training list, exact rational probabilities) model-checked by TLC for every list in bound (TrainingReproduced, SumsToOne); every list of that space sampled through the real trainer + guesser and judged by TrCompose; Loader.tla insertion loop model-checked and every model file loaded by the real loader (TrLoader insert); real trainings of generated lists (words, three-word multi-words with per-word capitalisation, digits, years, symbols, walks, context strings, spaces, Cyrillic / Greek / Latin-1 letters, non-BMP symbols, duplicates; coverage, n-gram size, alphabet size and encoding varied) followed by the real guesser with --skip_brute run to exhaustion; TLC checks that every supported training password (segmentation recorded with the real detectors, no e-mail / website segment) is among the emitted guesses (TrTrain lang); probability sum compared in Python',
+         text='The composition trainer -> guesser is model-checked exhaustively on small lists (Compose.tla) and the real tools are run on that space (TrCompose); end-to-end on real inputs: Segment o Train o Loader o PTQueue o Expand, whose parts are model-checked separately (C05, C06, C14, C02, C04).',
+         note='Model-checked on the small composition space; beyond it inputs are sampled. Domain: letters with one-to-one case mapping (as stated). Coverage 0 is outside C03 (by C06 the grammar then holds only the Markov structure).'),
+    dict(pid='C13', cat=MC, design='5/C13',
+         technique='TLA+ Compose.tla (PromiseKept, ScoreOfGuess, OnlyOwnStructure over every training list x candidate in bound, exact rationals) and Scorer.tla (case mappings) model-checked by TLC; lists of the model space run through the real trainer, guesser and scorer and judged by TrCompose (exact rational comparison); real trainings, the real PCFGPasswordScorer and the real guesser language table (every non-Markov pre-terminal expanded); for every candidate string (training passwords, guesser output, one-edit perturbations, unrelated strings, e-mail / website strings) TLC checks on ranks (floats clustered within 1e-9) that a non-zero score equals the probability of a pre-terminal that emits exactly this string, that e-mail / website strings are classified and scored 0, and that rescoring in another order gives the same result (TrScore)',
+         text='The promise is an invariant of the composition model (Compose.tla, Scorer.tla) checked exhaustively in bound; the real scorer and guesser are run on the model space (exact rationals) and on real rulesets over thousands of candidates per run.',
+         note='Model-checked on the small composition space; beyond it candidates are sampled. Open finding C13-F15 (letters with non-invertible case mapping).'),
 ]
 
 NOT_YET = {
